@@ -34,7 +34,8 @@ structure Template where
   gcInScope : Bool      -- the impl header declares `'gc` (nameable inside the user-supplied type)
   typeStatic : Bool     -- the where-clause has `$type: 'static` on the user-supplied type itself
   paramsStatic : Bool   -- the where-clause has `$($params: 'static,)+`
-  userBounds : Bool     -- user-supplied where-predicates are spliced in
+  userBounds : Bool     -- user-supplied where-predicates are spliced in (recorded for the reader:
+                        --   extra bounds only restrict the impl, no rule depends on them)
   needsTrace : NT
   trace : TraceBody
   isUnsafeImpl : Bool
@@ -70,6 +71,7 @@ def Template.ok (t : Template) : Bool :=
 /-- A user-supplied type, as far as brands are concerned. -/
 structure Inst where
   brandFree : Bool   -- the type mentions no lifetime but `'static` (so it is `'static` itself)
+  nparams : Nat := 0 -- generic parameters the user declares (`<T, U> …`; only on arms with `hasParams`)
 deriving DecidableEq, Repr
 
 /-- Does the generated impl apply to the type at a brand `'gc`?  With `$type: 'static` it applies to
